@@ -135,6 +135,10 @@ pub fn history(rng: &mut gen::R, c: &Case, tb: &Tablebases) -> Vec<Cmd> {
                 s.push(Cmd::Go { spec: format!("depth {}", depth), wait: true });
             }
         }
+        // a readiness check between the end of a game and whatever follows (GUIs send one before ucinewgame)
+        if rng.gen_bool(0.35) {
+            s.push(Cmd::IsReady);
+        }
         if g < games - 1 && rng.gen_bool(0.5) {
             s.push(Cmd::NewGame);
         }
